@@ -236,20 +236,25 @@ inductive Err where
 
 /-! ## Matching (`match_list_pattern`, `match_single_pattern`, `match_rest_pattern`) -/
 
+/-- `patterns.split_last()` is `Some((MacroPattern::Rest(_), _))`. -/
+def lastIsRest (ps : List Pat) : Bool :=
+  match ps.getLast? with
+  | some (.rest _) => true
+  | _ => false
+
 /-- The prefix of `match_list_pattern` that does not look at the elements: returns
 `(expected_many_captures, unmatched_tail, proper_list)` or `none` when `len_matches` fails. -/
 def matchPre (ps : List Pat) (xs : List Sexp) (improper : Bool) :
     Option (Nat × List Sexp × List Sexp) :=
-  let hasRest := match ps.getLast? with | some (.rest _) => true | _ => false
-  let nProper := if hasRest then ps.length - 1 else ps.length
+  let nProper := if lastIsRest ps then ps.length - 1 else ps.length
   let properXs := if improper then xs.dropLast else xs
   let hasEll := ps.any Pat.isMany
-  let multi := hasEll || hasRest
-  let lenOk := if multi then properXs.length + 1 ≥ nProper else properXs.length == nProper
+  let lenOk : Bool :=
+    if hasEll || lastIsRest ps then decide (nProper ≤ properXs.length + 1) else properXs.length == nProper
   if !lenOk then none
   else
-    let unmatched := if hasEll then xs.drop properXs.length else xs.drop nProper
-    some (properXs.length + 1 - nProper, unmatched, properXs)
+    some (properXs.length + 1 - nProper,
+          if hasEll then xs.drop properXs.length else xs.drop nProper, properXs)
 
 mutual
 def matchSingle (sc : List Name) : Pat → Sexp → Bool
@@ -312,32 +317,41 @@ def matchList (sc : List Name) (ps : List Pat) (xs : List Sexp) (improper : Bool
   | some (ex, un, px) => matchItems sc ex un improper ps px
 
 
+/-- `mapM` in `Except Err`, by structural recursion (so that proofs unfold it directly). -/
+def mapE {α β : Type} (f : α → Except Err β) : List α → Except Err (List β)
+  | [] => .ok []
+  | x :: xs =>
+      match f x with
+      | .error e => .error e
+      | .ok y =>
+          match mapE f xs with
+          | .error e => .error e
+          | .ok ys => .ok (y :: ys)
+
+/-- `match x with | .error e => .error e | .ok a => f a`. -/
+def bindE {α β : Type} (x : Except Err α) (f : α → Except Err β) : Except Err β :=
+  match x with
+  | .error e => .error e
+  | .ok a => f a
+
 /-! ## Binding collection (`collect_bindings`) -/
 
 def Env.insert (e : Env) (k : Name) (v : Sexp) : Env := { e with b := e.b.insert k v }
 def Env.setMany (e : Env) (k : Name) : Env := { e with many := k :: e.many }
 def Env.isMany (e : Env) (k : Name) : Bool := e.many.contains k
 
-/-- Append one round's `nested_bindings` to `list_bindings` (`entry(ident).or_insert(vec![]).push(..)`). -/
-def accRound (acc : List (Name × List Sexp)) (round : Bindings) : List (Name × List Sexp) :=
-  round.keys.foldl (fun acc k =>
-    match round.get k with
-    | none => acc
-    | some v =>
-        if acc.any (fun kv => kv.1 == k) then
-          acc.map (fun kv => if kv.1 == k then (kv.1, kv.2 ++ [v]) else kv)
-        else acc ++ [(k, [v])]) acc
-
-/-- End of the `MacroPattern::Many` arm: every captured identifier is bound to the list of its captures
-and marked `BindingKind::Many`; the binding kinds found inside the rounds are kept. -/
+/-- End of the `MacroPattern::Many` arm: every identifier captured in some round is bound to the list of
+its captures, in round order (`list_bindings.entry(ident).or_insert(vec![]).push(captured)`), and marked
+`BindingKind::Many`; the binding kinds found inside the rounds are kept.  (An identifier captured in
+several rounds is inserted once per round here — with the same value, so `get` is unaffected.) -/
 def finishMany (env : Env) (rounds : List Env) : Env :=
-  let lb := rounds.foldl (fun acc r => accRound acc r.b) []
-  let env1 : Env := { env with many := env.many ++ rounds.flatMap (·.many) }
-  lb.foldl (fun e kv => (e.insert kv.1 (.list kv.2 false)).setMany kv.1) env1
+  let keys := rounds.flatMap (fun r => r.b.map (·.1))
+  let env1 : Env := { env with many := rounds.flatMap (·.many) ++ env.many }
+  keys.foldl (fun e k => (e.insert k (.list (rounds.filterMap (fun r => r.b.get k)) false)).setMany k) env1
 
 /-- The `expected_many_captures == 0` arm. -/
 def emptyMany (env : Env) (p : Pat) : Env :=
-  p.vars.eraseDups.foldl (fun e k => (e.insert k Sexp.nil).setMany k) env
+  p.vars.foldl (fun e k => (e.insert k Sexp.nil).setMany k) env
 
 mutual
 /-- `collect_bindings(&[pat], &[e], .., improper = false)` (so `expected_many_captures = 1`). -/
@@ -372,7 +386,7 @@ def collectItems (expected total : Nat) (improper : Bool) :
       if expected == 0 then
         collectItems expected total improper ps rem (emptyMany env pat)
       else
-        match (rem.take expected).mapM (fun x => collectOne pat x {}) with
+        match mapE (fun x => collectOne pat x {}) (rem.take expected) with
         | .error er => .error er
         | .ok rounds =>
             collectItems expected total improper ps (rem.drop expected) (finishMany env rounds)
@@ -628,28 +642,25 @@ def visit : Nat → ICtx → Env → Bindings → Sexp → Except Err Sexp
                 | .error e => .error e
                 | .ok (none, _) => .error .badSyntax
                 | .ok (some w, col) =>
-                    let original : Bindings := col.eraseDups.filterMap (fun x => (env.b.get x).map (fun v => (x, v)))
-                    match (List.range w).mapM (fun i =>
-                        match iterEnv env i original with
-                        | .error e => Except.error e
-                        | .ok envi => visit n c envi original (.list sub simp)) with
+                    let original : Bindings := col.filterMap (fun x => (env.b.get x).map (fun v => (x, v)))
+                    match mapE (fun i =>
+                        bindE (iterEnv env i original) (fun envi => visit n c envi original (.list sub simp)))
+                        (List.range w) with
                     | .error e => .error e
                     | .ok results => .ok (xs.take pos ++ results ++ xs.drop (pos + 2))
             | _ => .error .badSyntax
       match expanded with
       | .error e => .error e
       | .ok xs' =>
-          match xs'.mapM (fun x => visit n c env fb x) with
+          match mapE (fun x => visit n c env fb x) xs' with
           | .error e => .error e
           | .ok ys => .ok (Sexp.mkList ys imp)
   | _ + 1, _, _, _, e => .ok e
 
-/-- Enough fuel for `visit`: every level of the template and of the bound forms. -/
-def visitFuel (env : Env) (t : Sexp) : Nat :=
-  t.depth + (env.b.map (fun kv => kv.2.depth)).foldl max 0 + 2
-
-def instantiate (c : ICtx) (env : Env) (t : Sexp) : Except Err Sexp :=
-  visit (visitFuel env t) c env [] t
+/-- `replace_identifiers` on the stored template.  `formDepth` = nesting depth of the macro use; the
+fuel covers every level of the template and of the forms bound by the use. -/
+def instantiate (c : ICtx) (env : Env) (t : Sexp) (formDepth : Nat) : Except Err Sexp :=
+  visit (t.depth + formDepth + 2) c env [] t
 
 /-! ## Pattern compilation (`MacroPattern::parse_from_list`, `MacroCase::parse_from_pattern_pair`) -/
 
@@ -893,7 +904,7 @@ def markEnv (env : Env) : Env := { env with b := env.b.map (fun kv => (kv.1, kv.
 def expandCase (c : ICtx) (cs : MacroCase) (args : List Sexp) (imp : Bool) : Except Err Sexp :=
   match collect (cs.pats.drop 1) (args.drop 1) imp with
   | .error e => .error e
-  | .ok env => instantiate c (markEnv env) cs.body
+  | .ok env => instantiate c (markEnv env) cs.body (Sexp.list args imp).depth
 
 def Macro.expand (m : Macro) (c : ICtx) (args : List Sexp) (imp : Bool) : Except Err Sexp :=
   match findCase c.scope args imp m.cases with
@@ -958,8 +969,13 @@ def stepFlags (me : MEnv) (sc : List Name) (cs : MacroCase) (env : Env) : Flags 
     match env.b.get v with
     | some (.id _ m) => m.unres
     | _ => false)
+  -- … or an identifier spelled like a free identifier of this very template
+  let binderArgIds := (binderAtoms cs.body).flatMap (fun v =>
+    match env.b.get v with
+    | some f => f.ids
+    | none => [])
   cs.sflags.or
-  { a := shadowed.any (fun x => !lits.contains x),
+  { a := shadowed.any (fun x => !lits.contains x) || binderArgIds.any (fun x => free.contains x),
     c := shadowed.any (fun x => lits.contains x),
     b := bound.any (fun x => (cs.intro.map Name.hash).contains x || env.b.any (fun kv => kv.1 == x))
           || binderGetsFree }
@@ -973,90 +989,81 @@ def Macro.expandInfo (m : Macro) (me : MEnv) (sc lex : List Name) (args : List S
       match collect (cs.pats.drop 1) (args.drop 1) imp with
       | .error e => .error e
       | .ok env =>
-          match instantiate { scope := sc, globals := me.globals } (markEnv env) cs.body with
+          match instantiate { scope := sc, globals := me.globals } (markEnv env) cs.body (Sexp.list args imp).depth with
           | .error e => .error e
           | .ok r => .ok (r, stepFlags me (sc ++ lex) cs env)
 
 abbrev MRes (α : Type) := Except Err (α × List Name × Flags)
 
+/-- The non-recursive part of `Expander::visit` on a list: `rM`, `rL`, `rP` are the recursive visits
+(of one form, of a sequence of forms, of the binding pairs of a `let`) with one unit of fuel less. -/
+def expMBody (me : MEnv) (lex : List Name)
+    (rM : Nat → List Name → Sexp → MRes Sexp)
+    (rL rP : Nat → List Name → List Sexp → MRes (List Sexp))
+    (depth : Nat) (sc : List Name) (xs : List Sexp) (imp : Bool) : MRes Sexp :=
+  if depth > 512 then .error .depthLimit
+  else
+    match xs with
+    | .kw .lambda :: params :: body =>
+        match body with
+        | [] => .error .badSyntax
+        | _ =>
+            bindE (rL depth (paramNames params ++ sc) body) (fun r =>
+              .ok (.list (.kw .lambda :: params :: r.1) imp, sc,
+                   r.2.2.or { b := anyUnresBinder (paramAtoms params) }))
+    | .kw .quote :: _ => .ok (.list xs imp, sc, {})
+    | .kw .let_ :: .list pairs pimp :: body =>
+        bindE (rP depth sc pairs) (fun r1 =>
+          bindE (rL depth r1.2.1 body) (fun r2 =>
+            .ok (.list (.kw .let_ :: .list r1.1 pimp :: r2.1) imp, sc, r1.2.2.or r2.2.2)))
+    | .kw .let_ :: a1 :: body =>
+        bindE (rL depth sc body) (fun r => .ok (.list (.kw .let_ :: a1 :: r.1) imp, sc, r.2.2))
+    | .kw .define :: a1 :: rest =>
+        -- `define` adds the defined name to the current layer; steel does not record the parameters of
+        -- `(define (f x …) …)` (they are only used by the classification, through `lex`)
+        bindE (rL depth (match a1 with
+                          | .list (.id fn _ :: _) _ => fn :: sc
+                          | .id n _ => n :: sc
+                          | _ => sc) rest) (fun r =>
+          .ok (.list (.kw .define :: a1 :: r.1) imp, r.2.1, r.2.2))
+    | [.kw .define] => .error .badSyntax
+    | .kw .defineSyntax :: a :: b :: rest =>
+        bindE (rM depth sc b) (fun r => .ok (.list (.kw .defineSyntax :: a :: r.1 :: rest) imp, r.2.1, r.2.2))
+    | .id s m :: args =>
+        match me.find s with
+        | some mac =>
+            -- single source: `sp.source_id() == m.location.source_id()` holds, so a local binding of the
+            -- macro's name does not stop the expansion
+            bindE (mac.expandInfo me sc lex (.id s m :: args) imp) (fun r1 =>
+              bindE (rM (depth + 1) sc r1.1) (fun r2 => .ok (r2.1, r2.2.1, r1.2.or r2.2.2)))
+        | none => bindE (rL depth sc xs) (fun r => .ok (.list r.1 imp, r.2.1, r.2.2))
+    | _ => bindE (rL depth sc xs) (fun r => .ok (.list r.1 imp, r.2.1, r.2.2))
+
 mutual
 /-- `Expander::visit`.  `depth` = `self.depth` (nested expansions), `sc` = `in_scope_values` (all layers);
-the returned scope is the current layer after the visit (`define` adds to it).  `lex` is only used by
-the classification (`stepFlags`). -/
+the returned scope is the current layer after the visit (`define` adds to it).  `lex` (the parameters of
+enclosing `(define (f x …) …)` forms) is only used by the classification (`stepFlags`). -/
 def expM (me : MEnv) (lex : List Name) : Nat → Nat → List Name → Sexp → MRes Sexp
   | 0, _, _, _ => .error .fuel
   | f + 1, depth, sc, .list xs imp =>
-      if depth > 512 then .error .depthLimit
-      else
-        match xs with
-        | .kw .lambda :: params :: body =>
-            match body with
-            | [] => .error .badSyntax
-            | _ =>
-              match expMList me lex f depth (paramNames params ++ sc) body with
-              | .error e => .error e
-              | .ok (body', _, fl) =>
-                  .ok (.list (.kw .lambda :: params :: body') imp, sc,
-                       fl.or { b := anyUnresBinder (paramAtoms params) })
-        | .kw .quote :: _ => .ok (.list xs imp, sc, {})
-        | .kw .let_ :: .list pairs pimp :: body =>
-            match expMPairs me lex f depth sc pairs with
-            | .error e => .error e
-            | .ok (pairs', sc1, fl1) =>
-                match expMList me lex f depth sc1 body with
-                | .error e => .error e
-                | .ok (body', _, fl2) =>
-                    .ok (.list (.kw .let_ :: .list pairs' pimp :: body') imp, sc, fl1.or fl2)
-        | .kw .let_ :: a1 :: body =>
-            match expMList me lex f depth sc body with
-            | .error e => .error e
-            | .ok (body', _, fl) => .ok (.list (.kw .let_ :: a1 :: body') imp, sc, fl)
-        | .kw .define :: a1 :: rest =>
-            let sc1 := match a1 with
-              | .list (.id fn _ :: _) _ => fn :: sc
-              | .id n _ => n :: sc
-              | _ => sc
-            let lex1 := match a1 with
-              | .list (_ :: ps) _ => paramNames (.list ps false) ++ lex
-              | _ => lex
-            match expMList me lex1 f depth sc1 rest with
-            | .error e => .error e
-            | .ok (rest', sc2, fl) => .ok (.list (.kw .define :: a1 :: rest') imp, sc2, fl)
-        | [.kw .define] => .error .badSyntax
-        | .kw .defineSyntax :: a :: b :: rest =>
-            match expM me lex f depth sc b with
-            | .error e => .error e
-            | .ok (b', sc', fl) => .ok (.list (.kw .defineSyntax :: a :: b' :: rest) imp, sc', fl)
-        | .id s m :: args =>
-            match me.find s with
-            | some mac =>
-                -- single source: `sp.source_id() == m.location.source_id()` holds, so a local binding of the
-                -- macro's name does not stop the expansion
-                match mac.expandInfo me sc lex (.id s m :: args) imp with
-                | .error e => .error e
-                | .ok (expanded, fl) =>
-                    match expM me lex f (depth + 1) sc expanded with
-                    | .error e => .error e
-                    | .ok (r, sc', fl') => .ok (r, sc', fl.or fl')
-            | none =>
-                match expMList me lex f depth sc xs with
-                | .error e => .error e
-                | .ok (xs', sc', fl) => .ok (.list xs' imp, sc', fl)
-        | _ =>
-            match expMList me lex f depth sc xs with
-            | .error e => .error e
-            | .ok (xs', sc', fl) => .ok (.list xs' imp, sc', fl)
+      match xs with
+      | .kw .define :: .list (fn :: ps) pimp :: rest =>
+          -- only difference to the other forms: the classification learns the parameters
+          expMBody me (paramNames (.list ps false) ++ lex)
+            (fun d s e => expM me (paramNames (.list ps false) ++ lex) f d s e)
+            (fun d s es => expMList me (paramNames (.list ps false) ++ lex) f d s es)
+            (fun d s es => expMPairs me (paramNames (.list ps false) ++ lex) f d s es)
+            depth sc (.kw .define :: .list (fn :: ps) pimp :: rest) imp
+      | xs =>
+          expMBody me lex (fun d s e => expM me lex f d s e) (fun d s es => expMList me lex f d s es)
+            (fun d s es => expMPairs me lex f d s es) depth sc xs imp
   | _ + 1, _, sc, e => .ok (e, sc, {})
 def expMList (me : MEnv) (lex : List Name) : Nat → Nat → List Name → List Sexp → MRes (List Sexp)
   | 0, _, _, _ => .error .fuel
   | _ + 1, _, sc, [] => .ok ([], sc, {})
   | f + 1, depth, sc, x :: xs =>
-      match expM me lex f depth sc x with
-      | .error e => .error e
-      | .ok (x', sc1, fl1) =>
-          match expMList me lex f depth sc1 xs with
-          | .error e => .error e
-          | .ok (xs', sc2, fl2) => .ok (x' :: xs', sc2, fl1.or fl2)
+      bindE (expM me lex f depth sc x) (fun r1 =>
+        bindE (expMList me lex f depth r1.2.1 xs) (fun r2 => .ok (r1.1 :: r2.1, r2.2.1, r1.2.2.or r2.2.2)))
 /-- The binding pairs of a `let`: `define` the binder, visit it, visit the init — pair after pair. -/
 def expMPairs (me : MEnv) (lex : List Name) : Nat → Nat → List Name → List Sexp → MRes (List Sexp)
   | 0, _, _, _ => .error .fuel
@@ -1064,20 +1071,11 @@ def expMPairs (me : MEnv) (lex : List Name) : Nat → Nat → List Name → List
   | f + 1, depth, sc, p :: ps =>
       match p with
       | .list l limp =>
-          let sc0 := match l with
-            | .id n _ :: _ => n :: sc
-            | _ => sc
-          let flb : Flags := { b := anyUnresBinder (l.take 1) }
-          match expMList me lex f depth sc0 (l.take 2) with
-          | .error e => .error e
-          | .ok (l', sc1, fl1) =>
-              match expMPairs me lex f depth sc1 ps with
-              | .error e => .error e
-              | .ok (ps', sc2, fl2) => .ok (.list (l' ++ l.drop 2) limp :: ps', sc2, (flb.or fl1).or fl2)
-      | p =>
-          match expMPairs me lex f depth sc ps with
-          | .error e => .error e
-          | .ok (ps', sc2, fl2) => .ok (p :: ps', sc2, fl2)
+          bindE (expMList me lex f depth (match l with | .id n _ :: _ => n :: sc | _ => sc) (l.take 2)) (fun r1 =>
+            bindE (expMPairs me lex f depth r1.2.1 ps) (fun r2 =>
+              .ok (.list (r1.1 ++ l.drop 2) limp :: r2.1, r2.2.1,
+                   (({ b := anyUnresBinder (l.take 1) } : Flags).or r1.2.2).or r2.2.2)))
+      | p => bindE (expMPairs me lex f depth sc ps) (fun r2 => .ok (p :: r2.1, r2.2.1, r2.2.2))
 end
 
 /-! ## Specification S: R7RS matching with binding trees -/
